@@ -506,7 +506,10 @@ func (dp *DPoVP) LoadTopCandidates(blockHash common.Hash) types.DeputyNodes {
 		acc := dp.am.GetAccount(n.GetAddress())
 		candidate := acc.GetCandidate()
 		strID := candidate[types.CandidateKeyNodeID]
-		dn := types.NewDeputyNode(acc.GetVotes(), uint32(i), n.GetAddress(), strID)
+		// The votes must be the ones the list was ranked by (the state of blockHash). The account manager is
+		// already in the state of the block which is being sealed, so a vote in the snapshot block itself
+		// would produce a list whose votes don't match its ranks. No node could load the term from it
+		dn := types.NewDeputyNode(n.GetTotal(), uint32(i), n.GetAddress(), strID)
 		result = append(result, dn)
 	}
 	return result
